@@ -330,9 +330,15 @@ theorem C14_fn_apply_backward (s : Monitor.State) (c : Change) (A R : List GOp) 
 
 /-! ### State: on_add_block_end / on_remove_block_end -/
 
-/-- the per-block decode state as `on_*_block_end` reads it: the detected changes and the hash of the block -/
-def toGenDS (bh : Nat) (cs : List Change) (t : Monitor.State := default) : Gen.FnMonitorC14.BlockDecodeState Nat Nat :=
-  { changes := cs.map toGenChange, block_hash := some bh, state := toGen t }
+/-- generated `BlockDecodeState` with `BlockHash = Txid = Nat`, `Version = Int`, `LockTime = TxOut = Unit` -/
+abbrev GDS := Gen.FnMonitorC14.BlockDecodeState Nat Nat GSet Int Unit Unit
+abbrev GTx := Gen.FnMonitorC14.Transaction Int Unit Nat Unit
+
+/-- the per-block part of the decode state (changes, block hash, temporary copy); the per-transaction scratch is at
+    its start-of-transaction values (`on_transaction_start`) -/
+def toGenDS (bh : Nat) (cs : List Change) (t : Monitor.State := default) : GDS :=
+  { changes := cs.map toGenChange, version := 0, input_num := 0, output_num := 0, closing_tx := none,
+    spent_htlc_outputs := [], block_hash := some bh, state := toGen t }
 
 /-- the `for change in decode_state.changes.drain(..)` loop = `Monitor.applyAll` -/
 theorem foldlM_changes (g : Monitor.State → Change → Option Delta)
@@ -385,7 +391,7 @@ theorem is_done_ok (g : GState) (h : g.height + 1 ≤ Rs.U32_MAX) : ∃ b, g.is_
 
 /-- result of a block-end function: new state, the drained decode state, the pair `(adds, removes)` -/
 def outE (bh : Nat) (t : Monitor.State) (d : Delta) :
-    GState × Gen.FnMonitorC14.BlockDecodeState Nat Nat × (List GOp × List GOp) :=
+    GState × GDS × (List GOp × List GOp) :=
   (toGen d.1, toGenDS bh [] t, (d.2.1.map toGenOp, d.2.2.map toGenOp))
 
 /-- **`State::on_add_block_end` = `Monitor.addEnd`** for heights below `u32::MAX - 1` (the code does `height += 1`
@@ -598,7 +604,7 @@ on_remove_streamed_block_end, on_streamed_block_abort}`
 `self.get_state()` is inlined (declared normalisation), `self.decode_state.lock().expect("lock")` is the identity on the
 protected `Option<BlockDecodeState>`. -/
 
-abbrev GMon := Gen.FnMonitorC14.ChainMonitor Nat Nat
+abbrev GMon := Gen.FnMonitorC14.ChainMonitor Nat GSet Nat Int Unit Unit
 
 /-- `on_streamed_block_abort` drops the per-block decode state and touches nothing else -/
 theorem C14_fn_streamed_abort (m : GMon) :
@@ -684,5 +690,621 @@ theorem C14_fn_streamed_end_no_decode_state (s : Monitor.State) (bh : Nat) (hsb 
   unfold Gen.FnMonitorC14.ChainMonitor.on_add_streamed_block_end
   have hsb' : (toGen s).saw_block = true := hsb
   simp [hsb', Rs.unwrap, Rs.panic]
+
+
+/-! ### The push listener: `BlockDecodeState::{new, new_with_block_hash}`, `PushListener::{is_not_ready_for_push,
+on_block_start, on_transaction_start, on_transaction_input, on_transaction_output}`
+
+`Model.Scratch` is the part of `BlockDecodeState` the detection depends on: the temporary copy of the state, the changes
+so far, the input counter, the single input of a closing transaction being gathered (`closing_tx`), the spent HTLC
+outputs.  The transaction version and the gathered outputs only reach the commitment decoder (an input of the model:
+`Tx.kind`), `output_num` only the two asserts of `on_transaction_output` / `on_transaction_end`.
+`Set<OutPoint>::contains` is `List.contains`, `Version(i32)` the identity, `LockTime = TxOut = Unit`. -/
+
+abbrev GPL := Gen.FnMonitorC14.PushListener Nat Nat GSet Int Unit Unit Unit
+
+def toGenTxIn (i : OutPoint) : Gen.FnMonitorC14.TxIn Nat := { previous_output := toGenOp i }
+
+/-- `closing_tx` while the inputs are pushed: version of the transaction, `LockTime::ZERO`, the one input, no output -/
+def closingTx (ver : Int) (outs : List Unit) (i : OutPoint) : GTx :=
+  { version := ver, lock_time := (), input := [toGenTxIn i], output := outs }
+
+def toGenScratch (bh : Nat) (ver : Int) (d : Scratch) : GDS :=
+  { changes := d.changes.map toGenChange, version := ver, input_num := d.inputNum, output_num := 0,
+    closing_tx := d.closingIn.map (closingTx ver []), spent_htlc_outputs := d.spentHtlc, block_hash := some bh,
+    state := toGen d.t }
+
+def xContains (s : GSet) (o : GOp) : Bool := s.contains (o.txid, o.vout)
+
+/-- `BlockDecodeState::new_with_block_hash(state, hash)` (compact proof) = the scratch `Monitor.onTx` starts a block
+    with: no change yet, a copy of the state -/
+theorem C14_fn_decode_state_new_with_hash (s : Monitor.State) (bh : Nat) :
+    (Gen.FnMonitorC14.BlockDecodeState.new_with_block_hash (toGen s) bh : GDS)
+      = toGenScratch bh 0 { t := s, changes := [], inputNum := 0, closingIn := none, spentHtlc := [] } := rfl
+
+/-- `BlockDecodeState::new(state)` (streamed block, before `on_block_start`): the same without a block hash -/
+theorem C14_fn_decode_state_new (s : Monitor.State) (bh : Nat) :
+    ({ (Gen.FnMonitorC14.BlockDecodeState.new (toGen s) : GDS) with block_hash := some bh })
+      = toGenScratch bh 0 { t := s, changes := [], inputNum := 0, closingIn := none, spentHtlc := [] } := rfl
+
+/-- a listener that has seen the block start is ready; one that never saw a block is not (and must hold no hash) -/
+theorem C14_fn_is_not_ready (ds : GDS) (sb : Bool) :
+    Gen.FnMonitorC14.PushListener.is_not_ready_for_push ({ commitment_point_provider := (), decode_state := ds, saw_block := sb } : GPL)
+      = if sb then (if ds.block_hash.isSome then .ok false else .error .panic)
+        else (if ds.block_hash.isNone then .ok true else .error .panic) := by
+  unfold Gen.FnMonitorC14.PushListener.is_not_ready_for_push
+  cases sb <;> cases h : ds.block_hash <;> simp [Rs.assert, Rs.panic]
+
+/-- `on_block_start`: at most once per decode state ("saw more than one on_block_start"), sets the hash and `saw_block` -/
+theorem C14_fn_on_block_start (ds : GDS) (sb : Bool) (bh : Nat) :
+    Gen.FnMonitorC14.PushListener.on_block_start (ext_BlockHeader_block_hash := fun (h : Nat) => h)
+        ({ commitment_point_provider := (), decode_state := ds, saw_block := sb } : GPL) bh
+      = if ds.block_hash.isNone then .ok { commitment_point_provider := (), decode_state := { ds with block_hash := some bh }, saw_block := true }
+        else .error .panic := by
+  unfold Gen.FnMonitorC14.PushListener.on_block_start
+  cases h : ds.block_hash <;> simp [Rs.assert, Rs.panic]
+
+/-- `on_transaction_start` resets the per-transaction scratch (`Monitor.onTx`'s `d0`) and keeps the per-block part -/
+theorem C14_fn_on_transaction_start (bh : Nat) (ver ver' : Int) (d : Scratch) :
+    Gen.FnMonitorC14.PushListener.on_transaction_start
+        ({ commitment_point_provider := (), decode_state := { toGenScratch bh ver d with output_num := 7 }, saw_block := true } : GPL) ver'
+      = .ok { commitment_point_provider := (), decode_state := toGenScratch bh ver'
+                { t := d.t, changes := d.changes, inputNum := 0, closingIn := none, spentHtlc := [] },
+              saw_block := true } := by
+  unfold Gen.FnMonitorC14.PushListener.on_transaction_start
+  simp [C14_fn_is_not_ready, toGenScratch]
+
+/-- `add_change` on any scratch: the change is appended and applied to the temporary copy -/
+theorem add_change_scratch (bh : Nat) (ver : Int) (d : Scratch) (c : Change) :
+    (toGenScratch bh ver d).add_change (toGenChange c) = ofOpt (toGenScratch bh ver) (d.addChange c) := by
+  unfold Gen.FnMonitorC14.BlockDecodeState.add_change Scratch.addChange
+  simp only [toGenScratch, C14_fn_apply_forward]
+  cases h : applyForward d.t c with
+  | none => rfl
+  | some r =>
+    obtain ⟨t', a, rr⟩ := r
+    simp [outD, toGenScratch]
+
+
+def gOnInput (l : GPL) (i : OutPoint) : Rs.M GPL :=
+  Gen.FnMonitorC14.PushListener.on_transaction_input (ext_Set_contains := xContains) (ext_version_of := fun v => v)
+    (ext_locktime_zero := ()) l (toGenTxIn i)
+
+def plOf (bh : Nat) (ver : Int) (d : Scratch) : GPL :=
+  { commitment_point_provider := (), decode_state := toGenScratch bh ver d, saw_block := true }
+
+@[simp] theorem sc_state (bh : Nat) (ver : Int) (d : Scratch) : (toGenScratch bh ver d).state = toGen d.t := rfl
+@[simp] theorem sc_hash (bh : Nat) (ver : Int) (d : Scratch) : (toGenScratch bh ver d).block_hash = some bh := rfl
+
+/-- `add_change` on a decode state in explicit form: only `changes` and the temporary copy move -/
+theorem add_change_nf (cs : List Change) (ver : Int) (n o : Nat) (ctx : Option GTx) (sp : List (Nat × Nat))
+    (bh : Option Nat) (t : Monitor.State) (c : Change) :
+    Gen.FnMonitorC14.BlockDecodeState.add_change
+        ({ changes := cs.map toGenChange, version := ver, input_num := n, output_num := o, closing_tx := ctx,
+           spent_htlc_outputs := sp, block_hash := bh, state := toGen t } : GDS) (toGenChange c)
+      = match applyForward t c with
+        | none => .error .panic
+        | some r => .ok { changes := (cs ++ [c]).map toGenChange, version := ver, input_num := n, output_num := o,
+                          closing_tx := ctx, spent_htlc_outputs := sp, block_hash := bh, state := toGen r.1 } := by
+  unfold Gen.FnMonitorC14.BlockDecodeState.add_change
+  simp only [C14_fn_apply_forward]
+  cases h : applyForward t c with
+  | none => rfl
+  | some r =>
+    obtain ⟨t', a, rr⟩ := r
+    simp [outD]
+
+@[simp] theorem toGenOp_vout (o : OutPoint) : (toGenOp o).vout = o.2 := rfl
+
+theorem add_change_our (cs : List Change) (ver : Int) (n o : Nat) (ctx : Option GTx) (sp : List (Nat × Nat))
+    (bh : Option Nat) (t : Monitor.State) (v : Nat) :
+    Gen.FnMonitorC14.BlockDecodeState.add_change
+        ({ changes := cs.map toGenChange, version := ver, input_num := n, output_num := o, closing_tx := ctx,
+           spent_htlc_outputs := sp, block_hash := bh, state := toGen t } : GDS)
+        (Gen.FnMonitorC14.StateChange.OurOutputSpent v)
+      = match applyForward t (.ourSpent v) with
+        | none => .error .panic
+        | some r => .ok { changes := (cs ++ [Change.ourSpent v]).map toGenChange, version := ver, input_num := n,
+                          output_num := o, closing_tx := ctx, spent_htlc_outputs := sp, block_hash := bh,
+                          state := toGen r.1 } :=
+  add_change_nf cs ver n o ctx sp bh t (.ourSpent v)
+
+theorem add_change_second (cs : List Change) (ver : Int) (n o : Nat) (ctx : Option GTx) (sp : List (Nat × Nat))
+    (bh : Option Nat) (t : Monitor.State) (op : OutPoint) :
+    Gen.FnMonitorC14.BlockDecodeState.add_change
+        ({ changes := cs.map toGenChange, version := ver, input_num := n, output_num := o, closing_tx := ctx,
+           spent_htlc_outputs := sp, block_hash := bh, state := toGen t } : GDS)
+        (Gen.FnMonitorC14.StateChange.SecondLevelHTLCOutputSpent (toGenOp op))
+      = match applyForward t (.secondSpent op) with
+        | none => .error .panic
+        | some r => .ok { changes := (cs ++ [Change.secondSpent op]).map toGenChange, version := ver, input_num := n,
+                          output_num := o, closing_tx := ctx, spent_htlc_outputs := sp, block_hash := bh,
+                          state := toGen r.1 } :=
+  add_change_nf cs ver n o ctx sp bh t (.secondSpent op)
+
+/-- **`PushListener::on_transaction_input` = `Monitor.onInput`**: a spent funding input (`FundingInputSpent`), the spend
+    of the funding outpoint (a closing transaction starts being gathered), a spend of our output / an HTLC output /
+    a second-level output of the recorded unilateral close, the "closing tx must have only one input" assert, the input
+    counter — every detected change applied at once to the temporary copy. -/
+theorem C14_fn_on_transaction_input (bh : Nat) (ver : Int) (d : Scratch) (i : OutPoint)
+    (hn : d.inputNum + 1 ≤ Rs.U32_MAX) :
+    gOnInput (plOf bh ver d) i = ofOpt (plOf bh ver) (onInput d i) := by
+  have hBnf : ∀ t : Monitor.State, ((some (toGenOp i) : Option GOp) == (toGen t).funding_outpoint)
+      = decide (some i = t.fundingOutpoint) := by
+    intro t
+    show ((some (toGenOp i) : Option GOp) == t.fundingOutpoint.map toGenOp) = _
+    cases hfo : t.fundingOutpoint with
+    | none => simp
+    | some o =>
+      by_cases e : i = o
+      · subst e; simp
+      · have e2 : toGenOp i ≠ toGenOp o := fun h => e (toGenOp_inj h)
+        simp [e, e2]
+  have hcl : ∀ t : Monitor.State, (toGen t).closing_outpoints = t.closing.map toGenClosing := fun _ => rfl
+  have hA : xContains (toGen d.t).funding_inputs (toGenOp i) = d.t.fundingInputs.contains i := rfl
+  have h1 : 1 ≤ Rs.U32_MAX := by decide
+  unfold gOnInput Gen.FnMonitorC14.PushListener.on_transaction_input onInput Scratch.addChange
+  simp only [plOf, toGenScratch, C14_fn_is_not_ready, toGenTxIn, Option.isSome_some, if_true, Rs.bind_ok,
+    Bool.false_eq_true, if_false, hA]
+  cases hf : d.t.fundingInputs.contains i
+  · simp only [Bool.false_eq_true, if_false, Rs.pure_eq, Rs.bind_ok, Option.bind_eq_bind, Option.bind_some]
+    simp only [hBnf]
+    by_cases e : some i = d.t.fundingOutpoint
+    · have hdec : decide (some i = d.t.fundingOutpoint) = true := decide_eq_true e
+      simp only [hdec, if_true, if_pos e]
+      cases hc : d.t.closing with
+      | none =>
+        simp only [hcl, hc, Option.map_some, Option.map_none, C14_fn_includes_our, C14_fn_includes_htlc, C14_fn_includes_second, Bool.not_true, Bool.not_false, Bool.false_and, Bool.true_and, Bool.false_eq_true, if_false, if_true, Rs.bind_ok, Rs.pure_eq, Option.bind_eq_bind, Option.bind_some, add_change_our, add_change_second, toGenOp_vout]
+        (cases hci : d.closingIn <;> by_cases hz : d.inputNum = 0 <;> simp [hci, hz, hn, h1, Rs.assert, Rs.uadd, Rs.panic, ofOpt, closingTx, toGenTxIn, plOf, toGenScratch])
+      | some c =>
+        rcases Bool.eq_false_or_eq_true (c.includesOur i) with ho | ho
+        · simp only [hcl, hc, Option.map_some, Option.map_none, C14_fn_includes_our, C14_fn_includes_htlc, C14_fn_includes_second, Bool.not_true, Bool.not_false, Bool.false_and, Bool.true_and, Bool.false_eq_true, if_false, if_true, Rs.bind_ok, Rs.pure_eq, Option.bind_eq_bind, Option.bind_some, add_change_our, add_change_second, toGenOp_vout, ho]
+          cases hap2 : applyForward d.t (.ourSpent i.2) with
+          | none => simp [ofOpt]
+          | some r2 =>
+            obtain ⟨t2, a2, r2'⟩ := r2
+            simp only [Rs.bind_ok, Option.map_some, Option.bind_some]
+            (cases hci : d.closingIn <;> by_cases hz : d.inputNum = 0 <;> simp [hci, hz, hn, h1, Rs.assert, Rs.uadd, Rs.panic, ofOpt, closingTx, toGenTxIn, plOf, toGenScratch])
+        · rcases Bool.eq_false_or_eq_true (c.includesHtlc i) with hh | hh
+          · simp only [hcl, hc, Option.map_some, Option.map_none, C14_fn_includes_our, C14_fn_includes_htlc, C14_fn_includes_second, Bool.not_true, Bool.not_false, Bool.false_and, Bool.true_and, Bool.false_eq_true, if_false, if_true, Rs.bind_ok, Rs.pure_eq, Option.bind_eq_bind, Option.bind_some, add_change_our, add_change_second, toGenOp_vout, ho, hh]
+            (cases hci : d.closingIn <;> by_cases hz : d.inputNum = 0 <;> simp [hci, hz, hn, h1, Rs.assert, Rs.uadd, Rs.panic, ofOpt, closingTx, toGenTxIn, plOf, toGenScratch])
+          · rcases Bool.eq_false_or_eq_true (c.includesSecond i) with hs | hs
+            · simp only [hcl, hc, Option.map_some, Option.map_none, C14_fn_includes_our, C14_fn_includes_htlc, C14_fn_includes_second, Bool.not_true, Bool.not_false, Bool.false_and, Bool.true_and, Bool.false_eq_true, if_false, if_true, Rs.bind_ok, Rs.pure_eq, Option.bind_eq_bind, Option.bind_some, add_change_our, add_change_second, toGenOp_vout, ho, hh, hs]
+              cases hap2 : applyForward d.t (.secondSpent i) with
+              | none => simp [ofOpt]
+              | some r2 =>
+                obtain ⟨t2, a2, r2'⟩ := r2
+                simp only [Rs.bind_ok, Option.map_some, Option.bind_some]
+                (cases hci : d.closingIn <;> by_cases hz : d.inputNum = 0 <;> simp [hci, hz, hn, h1, Rs.assert, Rs.uadd, Rs.panic, ofOpt, closingTx, toGenTxIn, plOf, toGenScratch])
+            · simp only [hcl, hc, Option.map_some, Option.map_none, C14_fn_includes_our, C14_fn_includes_htlc, C14_fn_includes_second, Bool.not_true, Bool.not_false, Bool.false_and, Bool.true_and, Bool.false_eq_true, if_false, if_true, Rs.bind_ok, Rs.pure_eq, Option.bind_eq_bind, Option.bind_some, add_change_our, add_change_second, toGenOp_vout, ho, hh, hs]
+              (cases hci : d.closingIn <;> by_cases hz : d.inputNum = 0 <;> simp [hci, hz, hn, h1, Rs.assert, Rs.uadd, Rs.panic, ofOpt, closingTx, toGenTxIn, plOf, toGenScratch])
+    · have hdec : decide (some i = d.t.fundingOutpoint) = false := decide_eq_false e
+      simp only [hdec, Bool.false_eq_true, if_false, if_neg e]
+      cases hc : d.t.closing with
+      | none =>
+        simp only [hcl, hc, Option.map_some, Option.map_none, C14_fn_includes_our, C14_fn_includes_htlc, C14_fn_includes_second, Bool.not_true, Bool.not_false, Bool.false_and, Bool.true_and, Bool.false_eq_true, if_false, if_true, Rs.bind_ok, Rs.pure_eq, Option.bind_eq_bind, Option.bind_some, add_change_our, add_change_second, toGenOp_vout]
+        (cases hci : d.closingIn <;> by_cases hz : d.inputNum = 0 <;> simp [hci, hz, hn, h1, Rs.assert, Rs.uadd, Rs.panic, ofOpt, closingTx, toGenTxIn, plOf, toGenScratch])
+      | some c =>
+        rcases Bool.eq_false_or_eq_true (c.includesOur i) with ho | ho
+        · simp only [hcl, hc, Option.map_some, Option.map_none, C14_fn_includes_our, C14_fn_includes_htlc, C14_fn_includes_second, Bool.not_true, Bool.not_false, Bool.false_and, Bool.true_and, Bool.false_eq_true, if_false, if_true, Rs.bind_ok, Rs.pure_eq, Option.bind_eq_bind, Option.bind_some, add_change_our, add_change_second, toGenOp_vout, ho]
+          cases hap2 : applyForward d.t (.ourSpent i.2) with
+          | none => simp [ofOpt]
+          | some r2 =>
+            obtain ⟨t2, a2, r2'⟩ := r2
+            simp only [Rs.bind_ok, Option.map_some, Option.bind_some]
+            (cases hci : d.closingIn <;> by_cases hz : d.inputNum = 0 <;> simp [hci, hz, hn, h1, Rs.assert, Rs.uadd, Rs.panic, ofOpt, closingTx, toGenTxIn, plOf, toGenScratch])
+        · rcases Bool.eq_false_or_eq_true (c.includesHtlc i) with hh | hh
+          · simp only [hcl, hc, Option.map_some, Option.map_none, C14_fn_includes_our, C14_fn_includes_htlc, C14_fn_includes_second, Bool.not_true, Bool.not_false, Bool.false_and, Bool.true_and, Bool.false_eq_true, if_false, if_true, Rs.bind_ok, Rs.pure_eq, Option.bind_eq_bind, Option.bind_some, add_change_our, add_change_second, toGenOp_vout, ho, hh]
+            (cases hci : d.closingIn <;> by_cases hz : d.inputNum = 0 <;> simp [hci, hz, hn, h1, Rs.assert, Rs.uadd, Rs.panic, ofOpt, closingTx, toGenTxIn, plOf, toGenScratch])
+          · rcases Bool.eq_false_or_eq_true (c.includesSecond i) with hs | hs
+            · simp only [hcl, hc, Option.map_some, Option.map_none, C14_fn_includes_our, C14_fn_includes_htlc, C14_fn_includes_second, Bool.not_true, Bool.not_false, Bool.false_and, Bool.true_and, Bool.false_eq_true, if_false, if_true, Rs.bind_ok, Rs.pure_eq, Option.bind_eq_bind, Option.bind_some, add_change_our, add_change_second, toGenOp_vout, ho, hh, hs]
+              cases hap2 : applyForward d.t (.secondSpent i) with
+              | none => simp [ofOpt]
+              | some r2 =>
+                obtain ⟨t2, a2, r2'⟩ := r2
+                simp only [Rs.bind_ok, Option.map_some, Option.bind_some]
+                (cases hci : d.closingIn <;> by_cases hz : d.inputNum = 0 <;> simp [hci, hz, hn, h1, Rs.assert, Rs.uadd, Rs.panic, ofOpt, closingTx, toGenTxIn, plOf, toGenScratch])
+            · simp only [hcl, hc, Option.map_some, Option.map_none, C14_fn_includes_our, C14_fn_includes_htlc, C14_fn_includes_second, Bool.not_true, Bool.not_false, Bool.false_and, Bool.true_and, Bool.false_eq_true, if_false, if_true, Rs.bind_ok, Rs.pure_eq, Option.bind_eq_bind, Option.bind_some, add_change_our, add_change_second, toGenOp_vout, ho, hh, hs]
+              (cases hci : d.closingIn <;> by_cases hz : d.inputNum = 0 <;> simp [hci, hz, hn, h1, Rs.assert, Rs.uadd, Rs.panic, ofOpt, closingTx, toGenTxIn, plOf, toGenScratch])
+  · simp only [if_true]
+    rw [show Gen.FnMonitorC14.StateChange.FundingInputSpent (toGenOp i) = toGenChange (.fundingInputSpent i) from rfl]
+    simp only [add_change_nf]
+    cases hap1 : applyForward d.t (.fundingInputSpent i) with
+    | none => simp [ofOpt]
+    | some r1 =>
+      obtain ⟨t1, a1, r1'⟩ := r1
+      simp only [Rs.bind_ok, Rs.pure_eq, Option.map_some, Option.bind_eq_bind, Option.bind_some]
+      simp only [hBnf]
+      by_cases e : some i = t1.fundingOutpoint
+      · have hdec : decide (some i = t1.fundingOutpoint) = true := decide_eq_true e
+        simp only [hdec, if_true, if_pos e]
+        cases hc : t1.closing with
+        | none =>
+          simp only [hcl, hc, Option.map_some, Option.map_none, C14_fn_includes_our, C14_fn_includes_htlc, C14_fn_includes_second, Bool.not_true, Bool.not_false, Bool.false_and, Bool.true_and, Bool.false_eq_true, if_false, if_true, Rs.bind_ok, Rs.pure_eq, Option.bind_eq_bind, Option.bind_some, add_change_our, add_change_second, toGenOp_vout]
+          (cases hci : d.closingIn <;> by_cases hz : d.inputNum = 0 <;> simp [hci, hz, hn, h1, Rs.assert, Rs.uadd, Rs.panic, ofOpt, closingTx, toGenTxIn, plOf, toGenScratch])
+        | some c =>
+          rcases Bool.eq_false_or_eq_true (c.includesOur i) with ho | ho
+          · simp only [hcl, hc, Option.map_some, Option.map_none, C14_fn_includes_our, C14_fn_includes_htlc, C14_fn_includes_second, Bool.not_true, Bool.not_false, Bool.false_and, Bool.true_and, Bool.false_eq_true, if_false, if_true, Rs.bind_ok, Rs.pure_eq, Option.bind_eq_bind, Option.bind_some, add_change_our, add_change_second, toGenOp_vout, ho]
+            cases hap2 : applyForward t1 (.ourSpent i.2) with
+            | none => simp [ofOpt]
+            | some r2 =>
+              obtain ⟨t2, a2, r2'⟩ := r2
+              simp only [Rs.bind_ok, Option.map_some, Option.bind_some]
+              (cases hci : d.closingIn <;> by_cases hz : d.inputNum = 0 <;> simp [hci, hz, hn, h1, Rs.assert, Rs.uadd, Rs.panic, ofOpt, closingTx, toGenTxIn, plOf, toGenScratch])
+          · rcases Bool.eq_false_or_eq_true (c.includesHtlc i) with hh | hh
+            · simp only [hcl, hc, Option.map_some, Option.map_none, C14_fn_includes_our, C14_fn_includes_htlc, C14_fn_includes_second, Bool.not_true, Bool.not_false, Bool.false_and, Bool.true_and, Bool.false_eq_true, if_false, if_true, Rs.bind_ok, Rs.pure_eq, Option.bind_eq_bind, Option.bind_some, add_change_our, add_change_second, toGenOp_vout, ho, hh]
+              (cases hci : d.closingIn <;> by_cases hz : d.inputNum = 0 <;> simp [hci, hz, hn, h1, Rs.assert, Rs.uadd, Rs.panic, ofOpt, closingTx, toGenTxIn, plOf, toGenScratch])
+            · rcases Bool.eq_false_or_eq_true (c.includesSecond i) with hs | hs
+              · simp only [hcl, hc, Option.map_some, Option.map_none, C14_fn_includes_our, C14_fn_includes_htlc, C14_fn_includes_second, Bool.not_true, Bool.not_false, Bool.false_and, Bool.true_and, Bool.false_eq_true, if_false, if_true, Rs.bind_ok, Rs.pure_eq, Option.bind_eq_bind, Option.bind_some, add_change_our, add_change_second, toGenOp_vout, ho, hh, hs]
+                cases hap2 : applyForward t1 (.secondSpent i) with
+                | none => simp [ofOpt]
+                | some r2 =>
+                  obtain ⟨t2, a2, r2'⟩ := r2
+                  simp only [Rs.bind_ok, Option.map_some, Option.bind_some]
+                  (cases hci : d.closingIn <;> by_cases hz : d.inputNum = 0 <;> simp [hci, hz, hn, h1, Rs.assert, Rs.uadd, Rs.panic, ofOpt, closingTx, toGenTxIn, plOf, toGenScratch])
+              · simp only [hcl, hc, Option.map_some, Option.map_none, C14_fn_includes_our, C14_fn_includes_htlc, C14_fn_includes_second, Bool.not_true, Bool.not_false, Bool.false_and, Bool.true_and, Bool.false_eq_true, if_false, if_true, Rs.bind_ok, Rs.pure_eq, Option.bind_eq_bind, Option.bind_some, add_change_our, add_change_second, toGenOp_vout, ho, hh, hs]
+                (cases hci : d.closingIn <;> by_cases hz : d.inputNum = 0 <;> simp [hci, hz, hn, h1, Rs.assert, Rs.uadd, Rs.panic, ofOpt, closingTx, toGenTxIn, plOf, toGenScratch])
+      · have hdec : decide (some i = t1.fundingOutpoint) = false := decide_eq_false e
+        simp only [hdec, Bool.false_eq_true, if_false, if_neg e]
+        cases hc : t1.closing with
+        | none =>
+          simp only [hcl, hc, Option.map_some, Option.map_none, C14_fn_includes_our, C14_fn_includes_htlc, C14_fn_includes_second, Bool.not_true, Bool.not_false, Bool.false_and, Bool.true_and, Bool.false_eq_true, if_false, if_true, Rs.bind_ok, Rs.pure_eq, Option.bind_eq_bind, Option.bind_some, add_change_our, add_change_second, toGenOp_vout]
+          (cases hci : d.closingIn <;> by_cases hz : d.inputNum = 0 <;> simp [hci, hz, hn, h1, Rs.assert, Rs.uadd, Rs.panic, ofOpt, closingTx, toGenTxIn, plOf, toGenScratch])
+        | some c =>
+          rcases Bool.eq_false_or_eq_true (c.includesOur i) with ho | ho
+          · simp only [hcl, hc, Option.map_some, Option.map_none, C14_fn_includes_our, C14_fn_includes_htlc, C14_fn_includes_second, Bool.not_true, Bool.not_false, Bool.false_and, Bool.true_and, Bool.false_eq_true, if_false, if_true, Rs.bind_ok, Rs.pure_eq, Option.bind_eq_bind, Option.bind_some, add_change_our, add_change_second, toGenOp_vout, ho]
+            cases hap2 : applyForward t1 (.ourSpent i.2) with
+            | none => simp [ofOpt]
+            | some r2 =>
+              obtain ⟨t2, a2, r2'⟩ := r2
+              simp only [Rs.bind_ok, Option.map_some, Option.bind_some]
+              (cases hci : d.closingIn <;> by_cases hz : d.inputNum = 0 <;> simp [hci, hz, hn, h1, Rs.assert, Rs.uadd, Rs.panic, ofOpt, closingTx, toGenTxIn, plOf, toGenScratch])
+          · rcases Bool.eq_false_or_eq_true (c.includesHtlc i) with hh | hh
+            · simp only [hcl, hc, Option.map_some, Option.map_none, C14_fn_includes_our, C14_fn_includes_htlc, C14_fn_includes_second, Bool.not_true, Bool.not_false, Bool.false_and, Bool.true_and, Bool.false_eq_true, if_false, if_true, Rs.bind_ok, Rs.pure_eq, Option.bind_eq_bind, Option.bind_some, add_change_our, add_change_second, toGenOp_vout, ho, hh]
+              (cases hci : d.closingIn <;> by_cases hz : d.inputNum = 0 <;> simp [hci, hz, hn, h1, Rs.assert, Rs.uadd, Rs.panic, ofOpt, closingTx, toGenTxIn, plOf, toGenScratch])
+            · rcases Bool.eq_false_or_eq_true (c.includesSecond i) with hs | hs
+              · simp only [hcl, hc, Option.map_some, Option.map_none, C14_fn_includes_our, C14_fn_includes_htlc, C14_fn_includes_second, Bool.not_true, Bool.not_false, Bool.false_and, Bool.true_and, Bool.false_eq_true, if_false, if_true, Rs.bind_ok, Rs.pure_eq, Option.bind_eq_bind, Option.bind_some, add_change_our, add_change_second, toGenOp_vout, ho, hh, hs]
+                cases hap2 : applyForward t1 (.secondSpent i) with
+                | none => simp [ofOpt]
+                | some r2 =>
+                  obtain ⟨t2, a2, r2'⟩ := r2
+                  simp only [Rs.bind_ok, Option.map_some, Option.bind_some]
+                  (cases hci : d.closingIn <;> by_cases hz : d.inputNum = 0 <;> simp [hci, hz, hn, h1, Rs.assert, Rs.uadd, Rs.panic, ofOpt, closingTx, toGenTxIn, plOf, toGenScratch])
+              · simp only [hcl, hc, Option.map_some, Option.map_none, C14_fn_includes_our, C14_fn_includes_htlc, C14_fn_includes_second, Bool.not_true, Bool.not_false, Bool.false_and, Bool.true_and, Bool.false_eq_true, if_false, if_true, Rs.bind_ok, Rs.pure_eq, Option.bind_eq_bind, Option.bind_some, add_change_our, add_change_second, toGenOp_vout, ho, hh, hs]
+                (cases hci : d.closingIn <;> by_cases hz : d.inputNum = 0 <;> simp [hci, hz, hn, h1, Rs.assert, Rs.uadd, Rs.panic, ofOpt, closingTx, toGenTxIn, plOf, toGenScratch])
+
+
+/-- **`PushListener::on_transaction_output`**: while a closing transaction is gathered the output is appended and the
+    output counter must still be below `MAX_COMMITMENT_OUTPUTS` (the `k`-th output, counted from 0, asserts `k < 600`:
+    a closing transaction with more than 600 outputs aborts — `Monitor.onTx`'s `nOut > MAX_COMMITMENT_OUTPUTS`);
+    otherwise only the counter moves. -/
+theorem C14_fn_on_transaction_output (ds : GDS) (bh : Nat) (hb : ds.block_hash = some bh)
+    (hk : ds.output_num + 1 ≤ Rs.U32_MAX) :
+    Gen.FnMonitorC14.PushListener.on_transaction_output ({ commitment_point_provider := (), decode_state := ds, saw_block := true } : GPL) ()
+      = match ds.closing_tx with
+        | none => .ok { commitment_point_provider := (), decode_state := { ds with output_num := ds.output_num + 1 }, saw_block := true }
+        | some tx =>
+          if ds.output_num < Monitor.MAX_COMMITMENT_OUTPUTS then
+            .ok { commitment_point_provider := (), saw_block := true,
+                  decode_state :=
+                    { ds with closing_tx := some { tx with output := tx.output ++ [()] }, output_num := ds.output_num + 1 } }
+          else .error .panic := by
+  unfold Gen.FnMonitorC14.PushListener.on_transaction_output
+  have hu : Rs.uadd Rs.U32_MAX ds.output_num 1 = .ok (ds.output_num + 1) := by unfold Rs.uadd; rw [if_pos hk]; rfl
+  have hm : Monitor.MAX_COMMITMENT_OUTPUTS = 600 := rfl
+  simp only [C14_fn_is_not_ready, hb, Option.isSome_some, if_true, Rs.bind_ok, Bool.false_eq_true, if_false, hm]
+  cases hc : ds.closing_tx with
+  | none => simp [hu, hc, hb]
+  | some tx =>
+    by_cases hlt : ds.output_num < 600
+    · simp [hu, hlt, hc, hb, Rs.unwrap, Rs.assert]
+    · simp [hlt, hc, hb, Rs.unwrap, Rs.assert, Rs.panic]
+
+
+/-! ### `PushListener::on_transaction_end`
+
+The body is generated (`Gen.FnMonitorC14.PushListener.on_transaction_end`, commitment decoder and point provider as
+externals).  First its final loop and the special case of a transaction that is neither a funding transaction nor a
+close (`_partial`), then the full tie `C14_fn_on_transaction_end` against the tail of `Monitor.onTx` (`txEnd`, `onTx_eq`). -/
+
+/-- the decode state when `on_transaction_end` runs / when it is done (per-transaction scratch consumed) -/
+def endDs (bh : Nat) (ver : Int) (n o : Nat) (ctx : Option GTx) (sp : List (Nat × Nat)) (cs : List Change)
+    (t : Monitor.State) : GDS :=
+  { changes := cs.map toGenChange, version := ver, input_num := n, output_num := o, closing_tx := ctx,
+    spent_htlc_outputs := sp, block_hash := some bh, state := toGen t }
+
+def endPl (bh : Nat) (ver : Int) (n o : Nat) (d : Scratch) : GPL :=
+  { commitment_point_provider := (), decode_state := endDs bh ver n o none [] d.changes d.t, saw_block := true }
+
+/-- the `for change in htlc_changes { decode_state.add_change(change) }` loop = `Monitor.addChanges` -/
+theorem fold_add_changes (bh : Nat) (ver : Int) (n o : Nat) : ∀ (cl : List Change) (d : Scratch),
+    List.foldlM (fun (self : GPL) change => do
+        let s ← Gen.FnMonitorC14.BlockDecodeState.add_change self.decode_state change
+        let self := { self with decode_state := s }
+        pure self) (endPl bh ver n o d) (cl.map toGenChange)
+      = ofOpt (endPl bh ver n o) (addChanges d cl) := by
+  intro cl
+  induction cl with
+  | nil => intro d; rfl
+  | cons c cl ih =>
+    intro d
+    simp only [List.map_cons, List.foldlM_cons, addChanges, endPl, endDs, add_change_nf, Scratch.addChange]
+    cases hap : applyForward d.t c with
+    | none => rfl
+    | some r =>
+      obtain ⟨t', a, rr⟩ := r
+      simp only [Rs.bind_ok, Rs.pure_eq, Option.map_some]
+      exact ih { d with t := t', changes := d.changes ++ [c] }
+
+
+def gOnEnd (l : GPL) (txid : Nat) : Rs.M GPL :=
+  Gen.FnMonitorC14.PushListener.on_transaction_end (ChannelTransactionParameters := Unit) (PublicKey := Unit)
+    (ext_CommitmentPointProvider_get_transaction_parameters := fun _ => ())
+    (ext_decode_commitment_number := fun _ _ => none)
+    (ext_CommitmentPointProvider_get_holder_commitment_point := fun _ _ => ())
+    (ext_CommitmentPointProvider_get_counterparty_commitment_point := fun _ _ => none)
+    (ext_decode_commitment_tx := fun _ _ _ _ => (none, []))
+    (ext_CommitmentPointProvider_get_spendable_htlc_indices := fun _ _ _ => none) l () txid
+
+/-- **`on_transaction_end`, partial**: for a transaction that is neither a funding transaction of the channel nor spends
+    the funding outpoint, the function is the HTLC loop — `Monitor.addChanges` over the spent HTLC outputs collected by
+    `on_transaction_input`, each becoming `HTLCOutputSpent(vout, (txid, input index))` — and the per-transaction scratch
+    is consumed.  (The full statement is `C14_fn_on_transaction_end` below.) -/
+theorem C14_fn_on_transaction_end_partial (bh : Nat) (ver : Int) (o : Nat) (d : Scratch) (txid : Nat)
+    (hf : position txid d.t.fundingTxids = none) (hc : d.closingIn = none) :
+    gOnEnd { commitment_point_provider := (), saw_block := true,
+             decode_state := endDs bh ver d.inputNum o none d.spentHtlc d.changes d.t } txid
+      = ofOpt (endPl bh ver d.inputNum o)
+          (addChanges d (d.spentHtlc.map fun (v, idx) => Change.htlcSpent v (txid, idx))) := by
+  unfold gOnEnd Gen.FnMonitorC14.PushListener.on_transaction_end
+  have hpos : (toGen d.t).funding_txids.findIdx? (fun i => i == txid) = none := by
+    rw [← position_eq_findIdx]; exact hf
+  have hmap : (d.spentHtlc.map fun (p : Nat × Nat) =>
+        Gen.FnMonitorC14.StateChange.HTLCOutputSpent p.1 ({ txid := txid, vout := p.2 } : GOp))
+      = (d.spentHtlc.map fun (v, idx) => Change.htlcSpent v (txid, idx)).map toGenChange := by
+    rw [List.map_map]; rfl
+  simp only [C14_fn_is_not_ready, endDs, Option.isSome_some, if_true, Rs.bind_ok, Bool.false_eq_true, if_false, hpos,
+    Rs.pure_eq, hmap]
+  exact fold_add_changes bh ver d.inputNum o _ d
+
+
+/-- the tail of `Monitor.onTx` after the inputs and the output-count assert (same text as in `Model/Monitor.lean`) -/
+def txEnd (d : Scratch) (tx : Tx) : Option (Monitor.State × List Change) := do
+  let d ← match position tx.txid d.t.fundingTxids with
+    | some ind =>
+      match d.t.fundingVouts[ind]? with
+      | none => none                                    -- index out of bounds
+      | some vout => if vout < tx.nOut then d.addChange (.fundingConfirmed (tx.txid, vout)) else none
+    | none => some d
+  let d ← match d.closingIn with
+    | some fo =>
+      match tx.kind with
+      | .commit our htlcs => d.addChange (.unilateral tx.txid fo our htlcs)
+      | .plain => d.addChange (.mutual tx.txid fo)
+    | none => some d
+  let d ← addChanges d (d.spentHtlc.map fun (v, idx) => Change.htlcSpent v (tx.txid, idx))
+  some (d.t, d.changes)
+
+/-- `Monitor.onTx` = the inputs, the output-count assert, then `txEnd` -/
+theorem onTx_eq (t : Monitor.State) (cs : List Change) (tx : Tx) :
+    onTx t cs tx = (do
+      let d ← onInputs { t, changes := cs, inputNum := 0, closingIn := none, spentHtlc := [] } tx.inputs
+      if d.closingIn.isSome && tx.nOut > MAX_COMMITMENT_OUTPUTS then none else txEnd d tx) := rfl
+
+
+def xNum (k : Kind) (_tx : GTx) (_p : Unit) : Option Nat := match k with | .commit _ _ => some 0 | .plain => none
+def xDecode (k : Kind) (_tx : GTx) (_h : Unit) (_c : Option Unit) (_p : Unit) : Option Nat × List Nat :=
+  match k with | .commit our htlcs => (our, htlcs) | .plain => (none, [])
+def xSpend (k : Kind) (_pr : Unit) (_tx : GTx) (_n : Nat) : Option (List Nat) :=
+  match k with | .commit _ htlcs => some htlcs | .plain => none
+
+/-- the generated `on_transaction_end` with the commitment decoder answering `kind` (`Tx.kind`: what the harness observes
+    from the real decoder): `decode_commitment_number` is `Some` exactly for a commitment, `decode_commitment_tx` and
+    `get_spendable_htlc_indices` return its output indices -/
+def gOnEndK (k : Kind) (l : GPL) (txid : Nat) : Rs.M GPL :=
+  Gen.FnMonitorC14.PushListener.on_transaction_end (ChannelTransactionParameters := Unit) (PublicKey := Unit)
+    (ext_CommitmentPointProvider_get_transaction_parameters := fun _ => ())
+    (ext_decode_commitment_number := xNum k)
+    (ext_CommitmentPointProvider_get_holder_commitment_point := fun _ _ => ())
+    (ext_CommitmentPointProvider_get_counterparty_commitment_point := fun _ _ => none)
+    (ext_decode_commitment_tx := xDecode k)
+    (ext_CommitmentPointProvider_get_spendable_htlc_indices := xSpend k) l () txid
+
+/-- **`PushListener::on_transaction_end` = the tail of `Monitor.onTx`** (`txEnd`, `onTx_eq`): `FundingConfirmed` for a
+    funding txid (index and output-count asserts), the gathered closing transaction classified by the commitment decoder
+    into `UnilateralCloseConfirmed` / `MutualCloseConfirmed`, then `HTLCOutputSpent` for every spent HTLC output; the
+    per-transaction scratch is consumed. -/
+theorem C14_fn_on_transaction_end (bh : Nat) (ver : Int) (outs : List Unit) (d : Scratch) (tx : Tx) :
+    gOnEndK tx.kind { commitment_point_provider := (), saw_block := true,
+                      decode_state := endDs bh ver d.inputNum tx.nOut (d.closingIn.map (closingTx ver outs)) d.spentHtlc
+                                        d.changes d.t } tx.txid
+      = ofOpt (fun r : Monitor.State × List Change =>
+                 ({ commitment_point_provider := (), saw_block := true,
+                    decode_state := endDs bh ver d.inputNum tx.nOut none [] r.2 r.1 } : GPL)) (txEnd d tx) := by
+  unfold gOnEndK Gen.FnMonitorC14.PushListener.on_transaction_end txEnd Scratch.addChange
+  have hpos : (toGen d.t).funding_txids.findIdx? (fun i => i == tx.txid) = position tx.txid d.t.fundingTxids := by
+    rw [position_eq_findIdx]; rfl
+  have hvouts : (toGen d.t).funding_vouts = d.t.fundingVouts := rfl
+  simp only [C14_fn_is_not_ready, endDs, Option.isSome_some, if_true, Rs.bind_ok, Bool.false_eq_true, if_false, hpos,
+    hvouts, Rs.pure_eq]
+  cases hp : position tx.txid d.t.fundingTxids with
+  | none =>
+    simp only [Rs.bind_ok, Option.bind_eq_bind, Option.bind_some]
+    cases hci : d.closingIn with
+    | none =>
+      simp only [Option.map_none, Rs.bind_ok, Rs.pure_eq, Option.bind_eq_bind, Option.bind_some]
+      have hmapF : (d.spentHtlc.map fun (p : Nat × Nat) =>
+            Gen.FnMonitorC14.StateChange.HTLCOutputSpent p.1 ({ txid := tx.txid, vout := p.2 } : GOp))
+          = (d.spentHtlc.map fun (v, idx) => Change.htlcSpent v (tx.txid, idx)).map toGenChange := by
+        rw [List.map_map]; rfl
+      simp only [hmapF]
+      have hfold := fold_add_changes bh ver d.inputNum tx.nOut
+        (d.spentHtlc.map fun (v, idx) => Change.htlcSpent v (tx.txid, idx)) { d with t := d.t, changes := d.changes }
+      simp only [endPl, endDs, Rs.pure_eq] at hfold
+      rw [hfold]
+      first
+        | (cases addChanges { d with t := d.t, changes := d.changes } (d.spentHtlc.map fun (v, idx) => Change.htlcSpent v (tx.txid, idx)) <;> rfl)
+        | (simp only [hci]; cases addChanges { t := d.t, changes := d.changes, inputNum := d.inputNum, closingIn := none, spentHtlc := d.spentHtlc } (d.spentHtlc.map fun (v, idx) => Change.htlcSpent v (tx.txid, idx)) <;> rfl)
+    | some fo =>
+      simp only [Option.map_some, closingTx, List.length_singleton, beq_self_eq_true, Rs.assert, if_true, Rs.bind_ok,
+        Rs.pure_eq, Option.bind_eq_bind, Option.bind_some, Rs.index, List.getElem?_cons_zero, toGenTxIn]
+      cases hk : tx.kind with
+      | plain =>
+        simp only [xNum, xDecode, xSpend]
+        rw [show Gen.FnMonitorC14.StateChange.MutualCloseConfirmed tx.txid (toGenOp fo) = toGenChange (.mutual tx.txid fo) from rfl]
+        simp only [add_change_nf]
+        cases hap2 : applyForward d.t (.mutual tx.txid fo) with
+        | none => simp [ofOpt]
+        | some r2 =>
+          obtain ⟨t2, a2, r2'⟩ := r2
+          simp only [Rs.bind_ok, Option.map_some, Option.bind_some]
+          have hmapF : (d.spentHtlc.map fun (p : Nat × Nat) =>
+                Gen.FnMonitorC14.StateChange.HTLCOutputSpent p.1 ({ txid := tx.txid, vout := p.2 } : GOp))
+              = (d.spentHtlc.map fun (v, idx) => Change.htlcSpent v (tx.txid, idx)).map toGenChange := by
+            rw [List.map_map]; rfl
+          simp only [hmapF]
+          have hfold := fold_add_changes bh ver d.inputNum tx.nOut
+            (d.spentHtlc.map fun (v, idx) => Change.htlcSpent v (tx.txid, idx)) { t := t2, changes := d.changes ++ [Change.mutual tx.txid fo], inputNum := d.inputNum, closingIn := some fo, spentHtlc := d.spentHtlc }
+          simp only [endPl, endDs, Rs.pure_eq] at hfold
+          rw [hfold]
+          cases addChanges { t := t2, changes := d.changes ++ [Change.mutual tx.txid fo], inputNum := d.inputNum, closingIn := some fo, spentHtlc := d.spentHtlc } (d.spentHtlc.map fun (v, idx) => Change.htlcSpent v (tx.txid, idx)) <;> rfl
+      | commit our htlcs =>
+        cases htlcs with
+        | nil =>
+          simp only [xNum, xDecode, xSpend, List.isEmpty_nil, if_true]
+          rw [show Gen.FnMonitorC14.StateChange.UnilateralCloseConfirmed tx.txid (toGenOp fo) our []
+                = toGenChange (.unilateral tx.txid fo our []) from rfl]
+          simp only [add_change_nf]
+          cases hap2 : applyForward d.t (.unilateral tx.txid fo our []) with
+          | none => simp [ofOpt]
+          | some r2 =>
+            obtain ⟨t2, a2, r2'⟩ := r2
+            simp only [Rs.bind_ok, Option.map_some, Option.bind_some]
+            have hmapF : (d.spentHtlc.map fun (p : Nat × Nat) =>
+                  Gen.FnMonitorC14.StateChange.HTLCOutputSpent p.1 ({ txid := tx.txid, vout := p.2 } : GOp))
+                = (d.spentHtlc.map fun (v, idx) => Change.htlcSpent v (tx.txid, idx)).map toGenChange := by
+              rw [List.map_map]; rfl
+            simp only [hmapF]
+            have hfold := fold_add_changes bh ver d.inputNum tx.nOut
+              (d.spentHtlc.map fun (v, idx) => Change.htlcSpent v (tx.txid, idx)) { t := t2, changes := d.changes ++ [Change.unilateral tx.txid fo our []], inputNum := d.inputNum, closingIn := some fo, spentHtlc := d.spentHtlc }
+            simp only [endPl, endDs, Rs.pure_eq] at hfold
+            rw [hfold]
+            cases addChanges { t := t2, changes := d.changes ++ [Change.unilateral tx.txid fo our []], inputNum := d.inputNum, closingIn := some fo, spentHtlc := d.spentHtlc } (d.spentHtlc.map fun (v, idx) => Change.htlcSpent v (tx.txid, idx)) <;> rfl
+        | cons hh tl =>
+          simp only [xNum, xDecode, xSpend, List.isEmpty_cons, Bool.false_eq_true, if_false, Option.getD_some]
+          rw [show Gen.FnMonitorC14.StateChange.UnilateralCloseConfirmed tx.txid (toGenOp fo) our (hh :: tl)
+                = toGenChange (.unilateral tx.txid fo our (hh :: tl)) from rfl]
+          simp only [add_change_nf]
+          cases hap2 : applyForward d.t (.unilateral tx.txid fo our (hh :: tl)) with
+          | none => simp [ofOpt]
+          | some r2 =>
+            obtain ⟨t2, a2, r2'⟩ := r2
+            simp only [Rs.bind_ok, Option.map_some, Option.bind_some]
+            have hmapF : (d.spentHtlc.map fun (p : Nat × Nat) =>
+                  Gen.FnMonitorC14.StateChange.HTLCOutputSpent p.1 ({ txid := tx.txid, vout := p.2 } : GOp))
+                = (d.spentHtlc.map fun (v, idx) => Change.htlcSpent v (tx.txid, idx)).map toGenChange := by
+              rw [List.map_map]; rfl
+            simp only [hmapF]
+            have hfold := fold_add_changes bh ver d.inputNum tx.nOut
+              (d.spentHtlc.map fun (v, idx) => Change.htlcSpent v (tx.txid, idx)) { t := t2, changes := d.changes ++ [Change.unilateral tx.txid fo our (hh :: tl)], inputNum := d.inputNum, closingIn := some fo, spentHtlc := d.spentHtlc }
+            simp only [endPl, endDs, Rs.pure_eq] at hfold
+            rw [hfold]
+            cases addChanges { t := t2, changes := d.changes ++ [Change.unilateral tx.txid fo our (hh :: tl)], inputNum := d.inputNum, closingIn := some fo, spentHtlc := d.spentHtlc } (d.spentHtlc.map fun (v, idx) => Change.htlcSpent v (tx.txid, idx)) <;> rfl
+  | some ind =>
+    simp only [Rs.index]
+    cases hv : d.t.fundingVouts[ind]? with
+    | none => simp [ofOpt, Rs.panic]
+    | some vout =>
+      by_cases hlt : vout < tx.nOut
+      · simp only [hlt, decide_true, Rs.assert, if_true, Rs.bind_ok, Rs.pure_eq]
+        rw [show Gen.FnMonitorC14.StateChange.FundingConfirmed ({ txid := tx.txid, vout := vout } : GOp)
+              = toGenChange (.fundingConfirmed (tx.txid, vout)) from rfl]
+        simp only [add_change_nf]
+        cases hap1 : applyForward d.t (.fundingConfirmed (tx.txid, vout)) with
+        | none => simp [ofOpt]
+        | some r1 =>
+          obtain ⟨t1, a1, r1'⟩ := r1
+          simp only [Rs.bind_ok, Option.map_some, Option.bind_eq_bind, Option.bind_some]
+          cases hci : d.closingIn with
+          | none =>
+            simp only [Option.map_none, Rs.bind_ok, Rs.pure_eq, Option.bind_eq_bind, Option.bind_some]
+            have hmapF : (d.spentHtlc.map fun (p : Nat × Nat) =>
+                  Gen.FnMonitorC14.StateChange.HTLCOutputSpent p.1 ({ txid := tx.txid, vout := p.2 } : GOp))
+                = (d.spentHtlc.map fun (v, idx) => Change.htlcSpent v (tx.txid, idx)).map toGenChange := by
+              rw [List.map_map]; rfl
+            simp only [hmapF]
+            have hfold := fold_add_changes bh ver d.inputNum tx.nOut
+              (d.spentHtlc.map fun (v, idx) => Change.htlcSpent v (tx.txid, idx)) { d with t := t1, changes := (d.changes ++ [Change.fundingConfirmed (tx.txid, vout)]) }
+            simp only [endPl, endDs, Rs.pure_eq] at hfold
+            rw [hfold]
+            first
+              | (cases addChanges { d with t := t1, changes := (d.changes ++ [Change.fundingConfirmed (tx.txid, vout)]) } (d.spentHtlc.map fun (v, idx) => Change.htlcSpent v (tx.txid, idx)) <;> rfl)
+              | (simp only [hci]; cases addChanges { t := t1, changes := (d.changes ++ [Change.fundingConfirmed (tx.txid, vout)]), inputNum := d.inputNum, closingIn := none, spentHtlc := d.spentHtlc } (d.spentHtlc.map fun (v, idx) => Change.htlcSpent v (tx.txid, idx)) <;> rfl)
+          | some fo =>
+            simp only [Option.map_some, closingTx, List.length_singleton, beq_self_eq_true, Rs.assert, if_true, Rs.bind_ok,
+              Rs.pure_eq, Option.bind_eq_bind, Option.bind_some, Rs.index, List.getElem?_cons_zero, toGenTxIn]
+            cases hk : tx.kind with
+            | plain =>
+              simp only [xNum, xDecode, xSpend]
+              rw [show Gen.FnMonitorC14.StateChange.MutualCloseConfirmed tx.txid (toGenOp fo) = toGenChange (.mutual tx.txid fo) from rfl]
+              simp only [add_change_nf]
+              cases hap2 : applyForward t1 (.mutual tx.txid fo) with
+              | none => simp [ofOpt]
+              | some r2 =>
+                obtain ⟨t2, a2, r2'⟩ := r2
+                simp only [Rs.bind_ok, Option.map_some, Option.bind_some]
+                have hmapF : (d.spentHtlc.map fun (p : Nat × Nat) =>
+                      Gen.FnMonitorC14.StateChange.HTLCOutputSpent p.1 ({ txid := tx.txid, vout := p.2 } : GOp))
+                    = (d.spentHtlc.map fun (v, idx) => Change.htlcSpent v (tx.txid, idx)).map toGenChange := by
+                  rw [List.map_map]; rfl
+                simp only [hmapF]
+                have hfold := fold_add_changes bh ver d.inputNum tx.nOut
+                  (d.spentHtlc.map fun (v, idx) => Change.htlcSpent v (tx.txid, idx)) { t := t2, changes := (d.changes ++ [Change.fundingConfirmed (tx.txid, vout)]) ++ [Change.mutual tx.txid fo], inputNum := d.inputNum, closingIn := some fo, spentHtlc := d.spentHtlc }
+                simp only [endPl, endDs, Rs.pure_eq] at hfold
+                rw [hfold]
+                cases addChanges { t := t2, changes := (d.changes ++ [Change.fundingConfirmed (tx.txid, vout)]) ++ [Change.mutual tx.txid fo], inputNum := d.inputNum, closingIn := some fo, spentHtlc := d.spentHtlc } (d.spentHtlc.map fun (v, idx) => Change.htlcSpent v (tx.txid, idx)) <;> rfl
+            | commit our htlcs =>
+              cases htlcs with
+              | nil =>
+                simp only [xNum, xDecode, xSpend, List.isEmpty_nil, if_true]
+                rw [show Gen.FnMonitorC14.StateChange.UnilateralCloseConfirmed tx.txid (toGenOp fo) our []
+                      = toGenChange (.unilateral tx.txid fo our []) from rfl]
+                simp only [add_change_nf]
+                cases hap2 : applyForward t1 (.unilateral tx.txid fo our []) with
+                | none => simp [ofOpt]
+                | some r2 =>
+                  obtain ⟨t2, a2, r2'⟩ := r2
+                  simp only [Rs.bind_ok, Option.map_some, Option.bind_some]
+                  have hmapF : (d.spentHtlc.map fun (p : Nat × Nat) =>
+                        Gen.FnMonitorC14.StateChange.HTLCOutputSpent p.1 ({ txid := tx.txid, vout := p.2 } : GOp))
+                      = (d.spentHtlc.map fun (v, idx) => Change.htlcSpent v (tx.txid, idx)).map toGenChange := by
+                    rw [List.map_map]; rfl
+                  simp only [hmapF]
+                  have hfold := fold_add_changes bh ver d.inputNum tx.nOut
+                    (d.spentHtlc.map fun (v, idx) => Change.htlcSpent v (tx.txid, idx)) { t := t2, changes := (d.changes ++ [Change.fundingConfirmed (tx.txid, vout)]) ++ [Change.unilateral tx.txid fo our []], inputNum := d.inputNum, closingIn := some fo, spentHtlc := d.spentHtlc }
+                  simp only [endPl, endDs, Rs.pure_eq] at hfold
+                  rw [hfold]
+                  cases addChanges { t := t2, changes := (d.changes ++ [Change.fundingConfirmed (tx.txid, vout)]) ++ [Change.unilateral tx.txid fo our []], inputNum := d.inputNum, closingIn := some fo, spentHtlc := d.spentHtlc } (d.spentHtlc.map fun (v, idx) => Change.htlcSpent v (tx.txid, idx)) <;> rfl
+              | cons hh tl =>
+                simp only [xNum, xDecode, xSpend, List.isEmpty_cons, Bool.false_eq_true, if_false, Option.getD_some]
+                rw [show Gen.FnMonitorC14.StateChange.UnilateralCloseConfirmed tx.txid (toGenOp fo) our (hh :: tl)
+                      = toGenChange (.unilateral tx.txid fo our (hh :: tl)) from rfl]
+                simp only [add_change_nf]
+                cases hap2 : applyForward t1 (.unilateral tx.txid fo our (hh :: tl)) with
+                | none => simp [ofOpt]
+                | some r2 =>
+                  obtain ⟨t2, a2, r2'⟩ := r2
+                  simp only [Rs.bind_ok, Option.map_some, Option.bind_some]
+                  have hmapF : (d.spentHtlc.map fun (p : Nat × Nat) =>
+                        Gen.FnMonitorC14.StateChange.HTLCOutputSpent p.1 ({ txid := tx.txid, vout := p.2 } : GOp))
+                      = (d.spentHtlc.map fun (v, idx) => Change.htlcSpent v (tx.txid, idx)).map toGenChange := by
+                    rw [List.map_map]; rfl
+                  simp only [hmapF]
+                  have hfold := fold_add_changes bh ver d.inputNum tx.nOut
+                    (d.spentHtlc.map fun (v, idx) => Change.htlcSpent v (tx.txid, idx)) { t := t2, changes := (d.changes ++ [Change.fundingConfirmed (tx.txid, vout)]) ++ [Change.unilateral tx.txid fo our (hh :: tl)], inputNum := d.inputNum, closingIn := some fo, spentHtlc := d.spentHtlc }
+                  simp only [endPl, endDs, Rs.pure_eq] at hfold
+                  rw [hfold]
+                  cases addChanges { t := t2, changes := (d.changes ++ [Change.fundingConfirmed (tx.txid, vout)]) ++ [Change.unilateral tx.txid fo our (hh :: tl)], inputNum := d.inputNum, closingIn := some fo, spentHtlc := d.spentHtlc } (d.spentHtlc.map fun (v, idx) => Change.htlcSpent v (tx.txid, idx)) <;> rfl
+      · simp [hlt, Rs.assert, Rs.panic, ofOpt]
 
 end VlsModel.Props.C14Fn
